@@ -11,7 +11,7 @@
 From Coq Require Import String ZArith List Bool Permutation Sorted.
 From GT Require Import Base.GEnumStr.
 From GT Require Import Base.GEnumStrFacts.
-From GT Require Import GEnumModel GEnumProofs.
+From GT Require Import GEnumModel GEnumProofs GEnumTraitProofs GEnumOrig.
 Import ListNotations.
 Local Open Scope string_scope.
 Local Open Scope list_scope.
@@ -93,6 +93,35 @@ Theorem C04_parse_reject : forall d o t, gen d o = Built t ->
   ~ is_trait_const d t (DStr s) -> sem_parse_string t s = None.
 Proof. exact parse_reject. Qed.
 
+(* … with the exception read off the DEFINITION: is_parsable_trait_value d o x = some constant's line carries,
+   in a column declared parsable, a cell whose constant is x.  (Soundness of the generator's table of trait
+   constants: what the Parse switch lists beyond the names are such cells only.) *)
+Theorem C04_trait_const_sound : forall d o t x, wf_defn d -> gen d o = Built t ->
+  is_trait_const d t x -> is_parsable_trait_value d o x = true.
+Proof. exact trait_const_sound. Qed.
+Theorem C04_parse_reject_def : forall d o t, wf_defn d -> gen d o = Built t -> forall s,
+  (forall c, In c (d_consts d) -> c_name c <> s) ->
+  (o_ci o = true -> forall c, In c (d_consts d) -> to_lower (c_name c) <> to_lower s) ->
+  is_parsable_trait_value d o (DStr s) = false -> sem_parse_string t s = None.
+Proof. exact parse_reject_def. Qed.
+(* "every enum definition genum accepts": the generator does accept every well-formed definition without
+   traits (for definitions with traits acceptance is observed by the farm, see the notes) *)
+Theorem C04_accepts_notraits : forall d o, wf_defn d -> d_consts d <> [] -> o_notraits o = true -> o_ci o = false ->
+  existsb (fun c => reserved_name o (c_name c)) (d_consts d) = false ->
+  exists t, gen d o = Built t.
+Proof. exact gen_total_notraits. Qed.
+
+(* a constant named like an identifier the template binds where it refers to the constants (`e`, `input`; `text`,
+   `ok` with -caseInsensitive) is refused with an error (fix C04-reserved-identifiers, 9cb41dd).  Before the fix
+   `e E = iota; f` generated `switch e { case e: return "e" …` (receiver shadows the constant: f.String() = "e") *)
+Theorem C04_reserved_name_rejected : forall d o,
+  existsb (fun c => reserved_name o (c_name c)) (d_consts d) = true -> gen d o = GenErr.
+Proof. exact reserved_rejected. Qed.
+Theorem C04_reserved_name_orig_refuted :
+  is_built (gen_orig w_reserved (opts_ci false)) = true /\ is_generr (gen w_reserved (opts_ci false)) = true
+  /\ is_built (gen w_reserved_ci (opts_ci false)) = true /\ is_generr (gen w_reserved_ci (opts_ci true)) = true.
+Proof. exact reserved_orig. Qed.
+
 (* ---- non-vacuity: a definition with duplicates, a deprecated first name, a negative value and
    17 constants (binary-search IsValid) satisfies the hypotheses and is generated *)
 Definition c04_mk n v dp := {| c_name := n; c_val := v; c_dep := dp; c_cells := [] |}.
@@ -106,6 +135,22 @@ Definition c04_ex : defn :=
      d_types := [] |}.
 Definition c04_opts : opts :=
   {| o_json := true; o_yaml := true; o_text := true; o_ci := true; o_notraits := false; o_parsable := [] |}.
+
+(* The theorems above are about sem_values / sem_isvalid / sem_string / sem_stringvalues / sem_parse.
+   These are the interpreters of the control skeletons of the emitted functions (value table and
+   Values(), StringValues(), String(), IsValid() with its threshold and both branches, the Parse<T>
+   switches with the -caseInsensitive fallback, ParseString/ParseGeneric delegation) at ANY skeleton
+   record accepted by the executable predicate skels_ok; the record regenerated from
+   genum/gen/enumTemplate.gotmpl of the current tree is shown to satisfy it on every check
+   (coq/ties/Tie_GEnumSkel.v), so every theorem above is about the functions the current template emits *)
+Theorem C04_skeleton_functions : forall k, skels_ok k = true -> forall d o t, gen d o = Built t ->
+  sem_values_sk k t = sem_values t /\ sem_stringvalues_sk k t = sem_stringvalues t
+  /\ (forall e, sem_isvalid_sk k t e = sem_isvalid t e) /\ (forall e, sem_string_sk k t e = sem_string t e)
+  /\ (forall x, sem_parse_sk (sk_parse k) t x = sem_parse t x)
+  /\ sk_parsestring k = true /\ sk_parsegeneric k = true.
+Proof. exact skel_functions. Qed.
+Theorem C04_skels_current_ok : skels_ok cur_skels = true.
+Proof. exact cur_skels_ok. Qed.
 
 Example C04_example_wf : wf_defn c04_ex.
 Proof.
@@ -129,6 +174,13 @@ Theorem C04_string_orig_refuted :
                /\ map g_name (dedup (sort_values cs)) = ["B"].
 Proof. exact dedup_orig_refuted. Qed.
 
+Print Assumptions C04_skeleton_functions.
+Print Assumptions C04_skels_current_ok.
+Print Assumptions C04_trait_const_sound.
+Print Assumptions C04_parse_reject_def.
+Print Assumptions C04_accepts_notraits.
+Print Assumptions C04_reserved_name_rejected.
+Print Assumptions C04_reserved_name_orig_refuted.
 Print Assumptions C04_sort_any.
 Print Assumptions C04_values_spec_meaning.
 Print Assumptions C04_primary_meaning.
